@@ -8,8 +8,9 @@ use crate::c05::ts;
 use crate::common::{Out, Rng};
 use crate::msops;
 use crate::with_ctx;
-use miniscript::{Miniscript, ScriptContext};
-use std::collections::BTreeSet;
+use miniscript::{Miniscript, ScriptContext, Terminal, Threshold};
+use std::collections::{BTreeMap, BTreeSet};
+use std::sync::Arc;
 
 fn bx(n: Node) -> Box<Node> { Box::new(n) }
 
@@ -127,20 +128,328 @@ fn corpus(ctx: CtxK) -> Vec<Node> {
 
 fn emit_one<Pk: msops::HKey, Ctx: ScriptContext>(out: &mut Out, ctx: CtxK, node: &Node, op: &str) -> bool {
     let ms: Miniscript<Pk, Ctx> = match ast::to_ms(node) { Ok(m) => m, Err(_) => return false };
+    emit_ms(out, ctx, node, &ms, op);
+    node.count_frags(out);
+    true
+}
+
+/* ------------------------------------------------------------------ rule matrix
+   Every wrapper and combinator is applied to children of EVERY type the library has produced so
+   far (one representative per distinct `Miniscript::ty`, i.e. per z/o/n/d/u x e/f/s/m
+   combination of every base type), in every position; the LIBRARY's `from_ast` alone decides
+   which candidates are well typed - nothing is pre-filtered by the specification's rules. */
+
+struct Rep<Pk: ast::KeyOf, Ctx: ScriptContext> { node: Node, ms: Arc<Miniscript<Pk, Ctx>>, ty: String }
+impl<Pk: ast::KeyOf, Ctx: ScriptContext> Clone for Rep<Pk, Ctx> {
+    fn clone(&self) -> Self { Rep { node: self.node.clone(), ms: self.ms.clone(), ty: self.ty.clone() } }
+}
+
+fn mk<Pk: ast::KeyOf, Ctx: ScriptContext>(t: Terminal<Pk, Ctx>, node: Node) -> Option<Rep<Pk, Ctx>> {
+    let ms = Miniscript::from_ast(t).ok()?;
+    Some(Rep { ty: ts(&ms.ty), ms: Arc::new(ms), node })
+}
+
+fn matrix_leaves(ctx: CtxK) -> Vec<Node> {
+    use Node::*;
+    let k = ast::ctx_keys(ctx, 3);
+    let (a, b, c) = (k[0], k[1], k[2]);
+    let mut v = vec![True, False, PkK(a), PkH(a), RawPkH(if ctx == CtxK::Tap { 200 } else { 0 }),
+        After(100), After(500_000_001), Older(10), Older(4_194_305),
+        Hash(HK::Sha256, 0), Hash(HK::Hash256, 2), Hash(HK::Ripemd160, 3), Hash(HK::Hash160, 1)];
+    if ctx == CtxK::Tap {
+        v.extend([MultiA(1, vec![a]), MultiA(1, vec![a, b]), MultiA(2, vec![a, b]), MultiA(2, vec![a, b, c]),
+            MultiA(3, vec![a, b, c]), SortedMultiA(1, vec![b, a]), SortedMultiA(2, vec![c, a, b]), SortedMultiA(3, vec![c, b, a])]);
+    } else {
+        v.extend([Multi(1, vec![a]), Multi(1, vec![a, b]), Multi(2, vec![a, b]), Multi(2, vec![a, b, c]),
+            Multi(3, vec![a, b, c]), SortedMulti(1, vec![b, a]), SortedMulti(2, vec![c, a, b]), SortedMulti(3, vec![c, b, a])]);
+        if matches!(ctx, CtxK::Bare | CtxK::Legacy) { v.extend([PkK(100), PkH(100), Multi(1, vec![100, a])]); }
+    }
+    v
+}
+
+fn corr_key(ty: &str) -> String { ty[..4].to_string() }
+fn mall_key(ty: &str) -> String { format!("{}{}", &ty[..1], &ty[4..]) }
+
+/// Rule matrix.  `classes` = one smallest representative per distinct full type produced so far.
+/// Unary rules (and single-child thresh) are applied to every class; binary rules, two-child
+/// thresh and andor to every tuple of correctness-class representatives (one per B/V/K/W x
+/// z/o/n x d x u value) and to every tuple of (base, malleability)-class representatives: the
+/// typing rules are componentwise, so every rule sees every reachable argument tuple.  Thorough
+/// tier: every accepted candidate is judged.  Quick tier: one candidate per (rule, base types of
+/// the children, resulting type) plus a seeded sample of the rest.
+/// Returns the emitted fragments (for the parser stream).
+fn matrix<Pk: msops::HKey, Ctx: ScriptContext>(out: &mut Out, ctx: CtxK, thorough: bool, rng: &mut Rng, seen: &mut BTreeSet<String>) -> Vec<Node> {
+    let mut emitted: Vec<Node> = vec![];
+    let mut classes: BTreeMap<String, Rep<Pk, Ctx>> = BTreeMap::new();
+    let mut done: BTreeSet<String> = BTreeSet::new();
+    let mut strata: BTreeSet<String> = BTreeSet::new();
+    let full = if thorough { "typeexecx" } else { "typeexec" };
+    let note_class = |classes: &mut BTreeMap<String, Rep<Pk, Ctx>>, r: &Rep<Pk, Ctx>| {
+        match classes.get(&r.ty) {
+            Some(old) if old.node.size() <= r.node.size() => {}
+            _ => { classes.insert(r.ty.clone(), r.clone()); }
+        }
+    };
+    for n in matrix_leaves(ctx) {
+        if let Ok(ms) = ast::to_ms::<Pk, Ctx>(&n) {
+            let r = Rep { ty: ts(&ms.ty), ms: Arc::new(ms), node: n.clone() };
+            if seen.insert(n.wire()) { emit_ms(out, ctx, &n, &r.ms, full); emitted.push(n.clone()); out.count("matrix leaf"); }
+            note_class(&mut classes, &r);
+        } else { out.count("matrix leaf rejected by the library"); }
+    }
+    let levels = 3;
+    for level in 1..=levels {
+        let reps: Vec<Rep<Pk, Ctx>> = classes.values().cloned().collect();
+        let mut rc: BTreeMap<String, Rep<Pk, Ctx>> = BTreeMap::new();
+        let mut rm: BTreeMap<String, Rep<Pk, Ctx>> = BTreeMap::new();
+        for r in &reps {
+            for (m, key) in [(&mut rc, corr_key(&r.ty)), (&mut rm, mall_key(&r.ty))] {
+                match m.get(&key) { Some(o) if o.node.size() <= r.node.size() => {}, _ => { m.insert(key, r.clone()); } }
+            }
+        }
+        let rc: Vec<Rep<Pk, Ctx>> = rc.into_values().collect();
+        let rm: Vec<Rep<Pk, Ctx>> = rm.into_values().collect();
+        out.note(&format!("matrix {} level {}", ctx.name(), level),
+            format!("{} full types, {} correctness classes, {} (base,malleability) classes as children", reps.len(), rc.len(), rm.len()));
+        let op = if level == 1 { full } else { "typeexecq" };
+        let mut fresh: Vec<Rep<Pk, Ctx>> = vec![];
+        let mut try_one = |out: &mut Out, rng: &mut Rng, kind: &str, bases: String, key: String, t: Terminal<Pk, Ctx>, node: Node,
+                           fresh: &mut Vec<Rep<Pk, Ctx>>, emitted: &mut Vec<Node>| {
+            if !done.insert(key) { return; }
+            out.count(&format!("matrix tried {}", kind));
+            if let Some(r) = mk::<Pk, Ctx>(t, node) {
+                out.count(&format!("matrix accepted {}", kind));
+                let new_stratum = strata.insert(format!("{} {} {}", kind, bases, r.ty));
+                let sample = if level >= 3 { rng.below(if kind == "andor" { 150 } else { 25 }) == 0 }
+                    else if kind == "andor" { rng.below(60) == 0 } else { rng.below(10) == 0 };
+                if r.node.size() > 48 { out.count("matrix fragment above 48 nodes (not judged)"); }
+                else if thorough || level == 1 || new_stratum || sample {
+                    if seen.insert(r.node.wire()) {
+                        emit_ms(out, ctx, &r.node, &r.ms, op);
+                        emitted.push(r.node.clone());
+                        out.count(&format!("matrix judged {}", kind));
+                    }
+                } else { out.count("matrix accepted candidate not judged in the quick tier (same rule, child bases and result type judged)"); }
+                fresh.push(r);
+            }
+        };
+        let b1 = |r: &Rep<Pk, Ctx>| r.ty[..1].to_string();
+        let bxn = |r: &Rep<Pk, Ctx>| Box::new(r.node.clone());
+        for x in &reps {
+            let un: [(&str, Terminal<Pk, Ctx>, Node); 7] = [
+                ("a", Terminal::Alt(x.ms.clone()), Node::Alt(bxn(x))), ("s", Terminal::Swap(x.ms.clone()), Node::Swap(bxn(x))),
+                ("c", Terminal::Check(x.ms.clone()), Node::Check(bxn(x))), ("d", Terminal::DupIf(x.ms.clone()), Node::DupIf(bxn(x))),
+                ("v", Terminal::Verify(x.ms.clone()), Node::Verify(bxn(x))), ("j", Terminal::NonZero(x.ms.clone()), Node::NonZero(bxn(x))),
+                ("n", Terminal::ZeroNotEqual(x.ms.clone()), Node::ZeroNotEqual(bxn(x)))];
+            for (kind, t, node) in un { try_one(out, rng, kind, b1(x), format!("{} {}", kind, x.ty), t, node, &mut fresh, &mut emitted); }
+            for k in [1usize, 2] {
+                match Threshold::new(k, vec![x.ms.clone()]) {
+                    Ok(th) => try_one(out, rng, "thresh/1", b1(x), format!("thresh{}of1 {}", k, x.ty), Terminal::Thresh(th),
+                        Node::Thresh(k, vec![x.node.clone()]), &mut fresh, &mut emitted),
+                    Err(_) => out.count("matrix Threshold::new rejected k > n"),
+                }
+            }
+        }
+        for pool in [&rc, &rm] {
+            for x in pool.iter() {
+                for y in pool.iter() {
+                    let bin: [(&str, Terminal<Pk, Ctx>, Node); 6] = [
+                        ("and_v", Terminal::AndV(x.ms.clone(), y.ms.clone()), Node::AndV(bxn(x), bxn(y))),
+                        ("and_b", Terminal::AndB(x.ms.clone(), y.ms.clone()), Node::AndB(bxn(x), bxn(y))),
+                        ("or_b", Terminal::OrB(x.ms.clone(), y.ms.clone()), Node::OrB(bxn(x), bxn(y))),
+                        ("or_d", Terminal::OrD(x.ms.clone(), y.ms.clone()), Node::OrD(bxn(x), bxn(y))),
+                        ("or_c", Terminal::OrC(x.ms.clone(), y.ms.clone()), Node::OrC(bxn(x), bxn(y))),
+                        ("or_i", Terminal::OrI(x.ms.clone(), y.ms.clone()), Node::OrI(bxn(x), bxn(y)))];
+                    let bb = format!("{}{}", b1(x), b1(y));
+                    for (kind, t, node) in bin { try_one(out, rng, kind, bb.clone(), format!("{} {} {}", kind, x.ty, y.ty), t, node, &mut fresh, &mut emitted); }
+                    for k in [1usize, 2] {
+                        if let Ok(th) = Threshold::new(k, vec![x.ms.clone(), y.ms.clone()]) {
+                            try_one(out, rng, "thresh/2", bb.clone(), format!("thresh{}of2 {} {}", k, x.ty, y.ty), Terminal::Thresh(th),
+                                Node::Thresh(k, vec![x.node.clone(), y.node.clone()]), &mut fresh, &mut emitted);
+                        }
+                    }
+                    for z in pool.iter() {
+                        try_one(out, rng, "andor", format!("{}{}", bb, b1(z)), format!("andor {} {} {}", x.ty, y.ty, z.ty),
+                            Terminal::AndOr(x.ms.clone(), y.ms.clone(), z.ms.clone()), Node::AndOr(bxn(x), bxn(y), bxn(z)), &mut fresh, &mut emitted);
+                    }
+                }
+            }
+        }
+        // three-child thresholds: k = 1, 2, 3 over a seeded sample of class representatives
+        for _ in 0..(if thorough { 600 } else { 60 }) {
+            let (x, y, z) = (&reps[rng.below(reps.len())], &reps[rng.below(reps.len())], &reps[rng.below(reps.len())]);
+            let k = 1 + rng.below(3);
+            if let Ok(th) = Threshold::new(k, vec![x.ms.clone(), y.ms.clone(), z.ms.clone()]) {
+                try_one(out, rng, "thresh/3", format!("{}{}{}", b1(x), b1(y), b1(z)), format!("thresh{}of3 {} {} {}", k, x.ty, y.ty, z.ty),
+                    Terminal::Thresh(th), Node::Thresh(k, vec![x.node.clone(), y.node.clone(), z.node.clone()]), &mut fresh, &mut emitted);
+            }
+        }
+        for r in &fresh { note_class(&mut classes, r); }
+    }
+    // the empty threshold cannot be built at all
+    if Threshold::<Arc<Miniscript<Pk, Ctx>>, 0>::new(1, vec![]).is_err() { out.count("matrix Threshold::new rejected n = 0"); }
+    out.note(&format!("matrix {} final", ctx.name()), format!("{} distinct full types reached", classes.len()));
+    emitted
+}
+
+fn emit_ms<Pk: msops::HKey, Ctx: ScriptContext>(out: &mut Out, ctx: CtxK, node: &Node, ms: &Miniscript<Pk, Ctx>, op: &str) {
     let w = node.wire();
-    // the judge executes the LIBRARY's script; the theorems speak about the model's encoding,
-    // which is tied to it by this correspondence line
     let script = ast::hex(ms.encode().as_bytes());
     out.line(&format!("C encode {} {}", ctx.name(), w), &script);
+    out.line(&format!("C typeof {} {}", ctx.name(), w), &ts(&ms.ty));
     out.line(&format!("J {} {} {} {} {}", op, ctx.name(), w, script, ts(&ms.ty)), "ok");
+    // the input domain the judge enumerates for this fragment (recomputed independently by the driver)
+    let tier = match op { "typeexecq" => 0, "typeexec" => 1, _ => 2 };
+    let (a, c, stacks, tx) = domain(node, ctx, tier);
+    out.line(&format!("C typeexecdom {} {} {}", ctx.name(), w, tier), &format!("A={} C={} stacks={} tx={}", a, c, stacks, tx));
+    let runs = stacks * tx * if ms.ty.corr.base == miniscript::miniscript::types::Base::W { 2 } else { 1 };
+    *out.hist.entry("script executions (input stacks x transaction settings)".to_string()).or_insert(0) += runs as u64;
+    *out.hist.entry(format!("script executions tier {}", tier)).or_insert(0) += runs as u64;
     out.count(&format!("base {:?}", ms.ty.corr.base));
     out.count(&format!("input {:?}", ms.ty.corr.input));
     if ms.ty.corr.dissatisfiable { out.count("label d"); }
     if ms.ty.corr.unit { out.count("label u"); }
     if ms.ty.mall.signed { out.count("label s"); }
     if ms.ty.mall.dissat == miniscript::miniscript::types::Dissat::None { out.count("label f"); }
-    node.count_frags(out);
-    true
+}
+
+/* ------------------------------------------------------------------ input domain of the judge
+   Mirrors `mkAlphabet` / `inputStacks` of Driver/OpsTypeExec.lean; compared line by line
+   (`C typeexecdom`), so the evidence can state exactly how many executions were tried. */
+
+fn thin_count(stride: usize, n: usize) -> usize { if stride <= 1 { n } else { (n + stride - 1) / stride } }
+
+fn domain(node: &Node, ctx: CtxK, tier: usize) -> (usize, usize, usize, usize) {
+    let mut ids: Vec<u32> = vec![];
+    let mut ks = vec![]; node.keys(&mut ks);
+    let mut rs = vec![]; node.rawpkhs(&mut rs);
+    for k in ks.into_iter().chain(rs.into_iter()) { if !ids.contains(&k) { ids.push(k); } }
+    let nk = ids.len();
+    let per_key = if ctx == CtxK::Tap && tier == 2 { 2 } else { 1 };
+    // the signature tables are keyed by the secret (id mod 100): a compressed and an uncompressed
+    // key of the same secret share their ECDSA signature bytes
+    let mut secrets: Vec<u32> = ids.iter().map(|i| i % 100).collect(); secrets.sort(); secrets.dedup();
+    let nsig = secrets.len() * per_key;
+    let extra = if nk > 0 { 2 } else { 0 };            // wrong-key signature + invalid signature
+    let mut hs = vec![]; node.hashes(&mut hs);
+    let mut pre: Vec<u32> = vec![];
+    for (_, h) in &hs { if !pre.contains(h) { pre.push(*h); } }
+    let hj = if hs.is_empty() { 0 } else { 2 };
+    let a = 5 + nsig + nk + extra + pre.len() + hj + 1;
+    let c = 2 + nsig + nk + pre.len() + (if hj > 0 { 1 } else { 0 }) + 1;
+    let up2 = 1 + a + a * a;
+    let stacks = match tier {
+        0 => up2 + thin_count((c.pow(3) + 599) / 600, c.pow(3)),
+        1 => up2 + a.pow(3) + thin_count((c.pow(4) + 1999) / 2000, c.pow(4)),
+        _ => up2 + a.pow(3) + thin_count((a.pow(4) + 19999) / 20000, a.pow(4)) + thin_count((c.pow(5) + 4999) / 5000, c.pow(5)),
+    };
+    let (mut af, mut ol) = (vec![], vec![]);
+    node.locks(&mut af, &mut ol);
+    let tx = if af.is_empty() && ol.is_empty() { 1 } else { 3 };
+    (a, c, stacks, tx)
+}
+
+/* ------------------------------------------------------------------ parser path
+   The neutral AST is printed as a Miniscript string by THIS printer (not the library's Display):
+   `plain` uses only the basic fragment names, `sugar` uses the aliases the specification defines
+   (pk(K) = c:pk_k(K), pkh(K) = c:pk_h(K), t:X = and_v(X,1), l:X = or_i(0,X), u:X = or_i(X,0),
+   and_n(X,Y) = andor(X,Y,0)).  The string goes through `from_str` (all validation switches
+   off, so that every base type parses); the resulting type and script are compared with the
+   Lean model's typeOf / encode of the AST. */
+
+fn key_str(ctx: CtxK, id: u32) -> String {
+    if ctx == CtxK::Tap { ast::xonly_key(id).to_string() } else { ast::full_key(id).to_string() }
+}
+
+fn show_parts(n: &Node, sugar: bool, ctx: CtxK) -> (String, String) {
+    use Node::*;
+    let wrap = |c: char, x: &Node| { let (w, b) = show_parts(x, sugar, ctx); (format!("{}{}", c, w), b) };
+    let sh = |x: &Node| show(x, sugar, ctx);
+    let keys = |k: usize, v: &Vec<u32>| format!("{},{}", k, v.iter().map(|i| key_str(ctx, *i)).collect::<Vec<_>>().join(","));
+    match n {
+        Check(x) if sugar && matches!(**x, PkK(_)) => if let PkK(k) = **x { (String::new(), format!("pk({})", key_str(ctx, k))) } else { unreachable!() },
+        Check(x) if sugar && matches!(**x, PkH(_)) => if let PkH(k) = **x { (String::new(), format!("pkh({})", key_str(ctx, k))) } else { unreachable!() },
+        AndV(x, y) if sugar && **y == True => wrap('t', x),
+        OrI(x, y) if sugar && **x == False => wrap('l', y),
+        OrI(x, y) if sugar && **y == False => wrap('u', x),
+        AndOr(x, y, z) if sugar && **z == False => (String::new(), format!("and_n({},{})", sh(x), sh(y))),
+        Alt(x) => wrap('a', x), Swap(x) => wrap('s', x), Check(x) => wrap('c', x), DupIf(x) => wrap('d', x),
+        Verify(x) => wrap('v', x), NonZero(x) => wrap('j', x), ZeroNotEqual(x) => wrap('n', x),
+        True => (String::new(), "1".into()), False => (String::new(), "0".into()),
+        PkK(k) => (String::new(), format!("pk_k({})", key_str(ctx, *k))),
+        PkH(k) => (String::new(), format!("pk_h({})", key_str(ctx, *k))),
+        RawPkH(h) => (String::new(), format!("expr_raw_pkh({})", ast::raw_pkh(*h))),
+        After(t) => (String::new(), format!("after({})", t)), Older(t) => (String::new(), format!("older({})", t)),
+        Hash(kind, h) => (String::new(), format!("{}({})", kind.name(), hash_str(*kind, *h))),
+        AndV(x, y) => (String::new(), format!("and_v({},{})", sh(x), sh(y))),
+        AndB(x, y) => (String::new(), format!("and_b({},{})", sh(x), sh(y))),
+        AndOr(x, y, z) => (String::new(), format!("andor({},{},{})", sh(x), sh(y), sh(z))),
+        OrB(x, y) => (String::new(), format!("or_b({},{})", sh(x), sh(y))),
+        OrD(x, y) => (String::new(), format!("or_d({},{})", sh(x), sh(y))),
+        OrC(x, y) => (String::new(), format!("or_c({},{})", sh(x), sh(y))),
+        OrI(x, y) => (String::new(), format!("or_i({},{})", sh(x), sh(y))),
+        Thresh(k, xs) => (String::new(), format!("thresh({},{})", k, xs.iter().map(|x| sh(x)).collect::<Vec<_>>().join(","))),
+        Multi(k, v) => (String::new(), format!("multi({})", keys(*k, v))),
+        SortedMulti(k, v) => (String::new(), format!("sortedmulti({})", keys(*k, v))),
+        MultiA(k, v) => (String::new(), format!("multi_a({})", keys(*k, v))),
+        SortedMultiA(k, v) => (String::new(), format!("sortedmulti_a({})", keys(*k, v))),
+    }
+}
+fn show(n: &Node, sugar: bool, ctx: CtxK) -> String {
+    let (w, b) = show_parts(n, sugar, ctx);
+    if w.is_empty() { b } else { format!("{}:{}", w, b) }
+}
+fn hash_str(kind: HK, h: u32) -> String {
+    use miniscript::bitcoin::hashes::{hash160, ripemd160, sha256, Hash};
+    let v = ast::hash_value(kind, h);
+    match kind {
+        HK::Sha256 => sha256::Hash::from_slice(&v).unwrap().to_string(),
+        HK::Hash256 => miniscript::hash256::Hash::from_slice(&v).unwrap().to_string(),
+        HK::Ripemd160 => ripemd160::Hash::from_slice(&v).unwrap().to_string(),
+        HK::Hash160 => hash160::Hash::from_slice(&v).unwrap().to_string(),
+    }
+}
+
+fn emit_str_with<Pk: msops::HKey, Ctx: ScriptContext>(out: &mut Out, ctx: CtxK, node: &Node, op: &str,
+    parse: fn(&str) -> Result<Miniscript<Pk, Ctx>, miniscript::Error>) {
+    let w = node.wire();
+    let ast_ms: Option<Miniscript<Pk, Ctx>> = ast::to_ms(node).ok();
+    for (form, sugar) in [("plain", false), ("sugar", true)] {
+        let s = show(node, sugar, ctx);
+        if sugar && s == show(node, false, ctx) { continue; }      // no alias applies
+        let res = std::panic::catch_unwind(|| parse(&s));
+        match res {
+            Err(_) => out.line(&format!("J strparse {} {} {} PANIC", ctx.name(), form, w), "ok"),
+            Ok(Err(e)) => {
+                let kind = e.to_string().split(' ').take(3).collect::<Vec<_>>().join("_");
+                out.line(&format!("J strparse {} {} {} err:{}", ctx.name(), form, w, kind), "ok");
+            }
+            Ok(Ok(ms2)) => {
+                out.line(&format!("J strparse {} {} {} ok", ctx.name(), form, w), "ok");
+                let script = ast::hex(ms2.encode().as_bytes());
+                out.line(&format!("C typeofstr {} {} {}", ctx.name(), form, w), &ts(&ms2.ty));
+                out.line(&format!("C encodestr {} {} {}", ctx.name(), form, w), &script);
+                // a type or script that differs from the from_ast path is judged by execution too
+                let same = ast_ms.as_ref().map(|m| ts(&m.ty) == ts(&ms2.ty) && m.encode() == ms2.encode()).unwrap_or(false);
+                if !same {
+                    out.count("parser path: type or script differs from the from_ast path (judged by execution)");
+                    out.line(&format!("J {} {} {} {} {}", op, ctx.name(), w, script, ts(&ms2.ty)), "ok");
+                }
+            }
+        }
+    }
+}
+
+fn emit_str(out: &mut Out, ctx: CtxK, node: &Node, op: &str) {
+    use miniscript::bitcoin::secp256k1::XOnlyPublicKey;
+    use miniscript::bitcoin::PublicKey;
+    use miniscript::{BareCtx, Legacy, Segwitv0, Tap, ValidationParams};
+    match ctx {
+        CtxK::Bare => emit_str_with::<PublicKey, BareCtx>(out, ctx, node, op, |s| Miniscript::from_str_with_validation_params(s, &ValidationParams::MAX)),
+        CtxK::Legacy => emit_str_with::<PublicKey, Legacy>(out, ctx, node, op, |s| Miniscript::from_str_with_validation_params(s, &ValidationParams::MAX)),
+        CtxK::Segwitv0 => emit_str_with::<PublicKey, Segwitv0>(out, ctx, node, op, |s| Miniscript::from_str_with_validation_params(s, &ValidationParams::MAX)),
+        CtxK::Tap => emit_str_with::<XOnlyPublicKey, Tap>(out, ctx, node, op, |s| Miniscript::from_str_with_validation_params(s, &ValidationParams::MAX)),
+    }
 }
 
 pub fn run(out: &mut Out, thorough: bool, seed: u64) {
@@ -151,21 +460,32 @@ pub fn run(out: &mut Out, thorough: bool, seed: u64) {
     let mut n_frag = 0u64;
     for ctx in CtxK::ALL {
         let mut seen: BTreeSet<String> = BTreeSet::new();
+        let mut all: Vec<Node> = vec![];
         // hand corpus first (ill-typed members for this context are skipped by `to_ms`)
         for node in corpus(ctx) {
             if !seen.insert(node.wire()) { continue; }
-            if with_ctx!(ctx, emit_one(out, ctx, &node, op)) { n_frag += 1; out.count("corpus fragment"); }
+            if with_ctx!(ctx, emit_one(out, ctx, &node, op)) { n_frag += 1; all.push(node); out.count("corpus fragment"); }
         }
         let atoms = ast::default_atoms(ctx, true);
         let (depth, quota) = if thorough { (3, 30) } else { (3, 7) };
         let frags = ast::enumerate(ctx, &atoms, depth, quota, &mut rng);
         for t in frags.iter() {
-            // keep the per-fragment alphabet small: at most 3 distinct keys + 2 hashes
+            // large fragments (many keys -> large alphabet, or many nodes) get the light input
+            // enumeration instead of being skipped; nothing below 49 nodes is left unjudged
             let mut ks = vec![]; t.node.keys(&mut ks); ks.sort(); ks.dedup();
-            if ks.len() > 3 || t.node.size() > 14 { out.count("skipped large fragment"); continue; }
+            if t.node.size() > 48 { out.count("fragment above 48 nodes (not judged)"); continue; }
+            let large = ks.len() > 3 || t.node.size() > 14;
             if !seen.insert(t.node.wire()) { continue; }
-            if with_ctx!(ctx, emit_one(out, ctx, &t.node, op)) { n_frag += 1; out.count("enumerated fragment"); }
+            if with_ctx!(ctx, emit_one(out, ctx, &t.node, if large { "typeexecq" } else { op })) {
+                n_frag += 1; all.push(t.node.clone());
+                out.count(if large { "enumerated fragment (large, light enumeration)" } else { "enumerated fragment" });
+            }
         }
+        let em = with_ctx!(ctx, matrix(out, ctx, thorough, &mut rng, &mut seen));
+        n_frag += em.len() as u64;
+        all.extend(em);
+        // parser path for every judged fragment
+        for node in &all { emit_str(out, ctx, node, "typeexecq"); }
     }
     // negative controls: a deliberately too strong type for a known fragment must be refuted by
     // the judge on the stated letter (shows the judge is not vacuous; independent of the library)
@@ -187,9 +507,13 @@ pub fn run(out: &mut Out, thorough: bool, seed: u64) {
     ];
     for (ctx, astw, ty, l) in neg {
         out.line(&format!("J typeexecneg {} {} {} {}", ctx, astw, ty, l), "refuted");
+        out.line(&format!("J typeexecnegq {} {} {} {}", ctx, astw, ty, l), "refuted");
     }
     out.note("distinct_nontrivial", n_frag.to_string());
+    let total = out.hist.get("script executions (input stacks x transaction settings)").cloned().unwrap_or(0);
+    out.note("executions_total", total.to_string());
     out.note("domain", format!(
-        "TESTS (not proofs) of the type letters: hand corpus + all base types B/V/K/W enumerated to depth {} (quota-thinned) in 4 contexts; per fragment all input stacks of length <= 3 over the full alphabet ([], 01, 02, 00, 80, valid sig per key, wrong-key sig, invalid sig, key serialisations, preimages, wrong preimage, 32 zero bytes, 33-byte junk) and of length {}, above the sentinel [aa],[bb]; 1 or 3 (nLockTime,nSequence) settings; `d` is searched among these inputs plus the specification's canonical dissatisfaction",
-        3, if thorough { "4 (full alphabet, thinned to 20000) and 5 (core alphabet, thinned to 5000)" } else { "4 (core alphabet, thinned to 2000)" }));
+        "TESTS (not proofs) of the type letters on {} fragments / {} script executions. FRAGMENTS: hand corpus; all base types B/V/K/W enumerated by ast::enumerate to depth 3 (quota-thinned); RULE MATRIX: every wrapper / combinator applied to one representative of every distinct Miniscript::ty the library has produced (closure over {} levels from the leaves 0, 1, pk_k, pk_h, raw pkh, after, older, the 4 hash kinds, multi/multi_a with k = 1 .. n, sortedmulti), unary rules on every full type, binary rules / thresh / andor on every tuple of correctness-class representatives and every tuple of (base, malleability)-class representatives, acceptance decided by the library's from_ast alone{}; every judged fragment also goes through from_str (plain and alias spelling). INPUTS per fragment (exhaustive part first): tier 1 (`typeexec`): ALL stacks of length <= 3 over the fragment's alphabet A (5 fixed values [], 01, 02, 00, 80; one valid signature per key; each key serialisation; a wrong-key signature; an invalid signature; each preimage; a wrong preimage; 32 zero bytes; 33-byte junk: |A| = 6..24) + length 4 over the core alphabet (thinned to <= 2000); tier 0 (`typeexecq`, large fragments and deeper matrix levels): ALL stacks of length <= 2 over A + length 3 over the core alphabet (thinned to <= 600); tier 2 (`typeexecx`, thorough): ALL of length <= 3 + length 4 over A (thinned to <= 20000) + length 5 core (thinned to <= 5000); always above the sentinel [aa],[bb], under 1 (no lock) or 3 (nLockTime, nSequence) settings, W fragments with 2 values of the top element. The exact count per fragment is on its `C typeexecdom` line (recomputed by the driver). LETTERS: shape (B/V/K/W), z, o, n, u, f, s are universally quantified claims, tested on EVERY enumerated run of the fragment; z / o additionally compare with the run on the empty / one-element stack; d is existential: a witness is searched among the enumerated signature-free inputs plus the specification's canonical dissatisfaction (SatTable.dsatWit), and the witness found is executed",
+        n_frag, total, 3,
+        if thorough { "; every accepted candidate is judged" } else { "; quick tier: one accepted candidate per (rule, base types of the children, resulting type) plus a seeded sample is judged, the thorough tier judges all" }));
 }
